@@ -299,6 +299,7 @@ func main() {
 	})
 
 	realBinary(run, dir)
+	ackCommit(run, dir)
 
 	// (3) random instants
 	if run.Thorough() {
